@@ -310,7 +310,7 @@ def eval_case(c):
     Ds = _datasets(rng)
     snaps = {k: _snapshot(v) for k, v in Ds.items()}
     model = c["model"]
-    cross = model in ("MCA", "CPCCA")
+    cross = model in ("MCA", "CPCCA", "MCA-pca-all", "CPCCA-pca-all")
     Ys = {k: (v if not isinstance(v, (list, xr.Dataset)) else Ds["D1"]) for k, v in Ds.items()}
     def Yof(k):
         base = Ds[k] if isinstance(Ds[k], xr.DataArray) else Ds["D1"]
@@ -323,11 +323,15 @@ def eval_case(c):
         if model == "SparsePCA":
             return xeofs.single.SparsePCA(n_modes=2, solver="full")
         if model == "POP":
-            return xeofs.single.POP(n_modes=2, n_pca_modes=4)
+            return xeofs.single.POP(n_modes=2, n_pca_modes=4, random_state=7)     # seeded: the inner PCA uses a randomised solver
         if model == "MCA":
             return xeofs.cross.MCA(n_modes=2, use_pca=False, solver="full")
         if model == "CPCCA":
             return xeofs.cross.CPCCA(n_modes=2, alpha=0.5, use_pca=False, solver="full")
+        if model == "MCA-pca-all":
+            return xeofs.cross.MCA(n_modes=2, use_pca=True, n_pca_modes="all", solver="full")
+        if model == "CPCCA-pca-all":
+            return xeofs.cross.CPCCA(n_modes=2, alpha=0.5, use_pca=True, n_pca_modes="all", solver="full")
         raise KeyError(model)
     def fit(m, k):
         return m.fit(Ds[k], Yof(k), "time") if cross else m.fit(Ds[k], "time")
@@ -425,6 +429,10 @@ def bounded_cases(tier, seed):
                 ops = [o for o in ops if o[1] not in ("Dds", "Dlist")]
             cases.append(dict(model=model, ops=[("fit", "D1")] + ops))
     cases.append(dict(model="EOF", ops=[("fit", "D1"), ("fit", "D2")], standardize=True, keep=True))
+    for model in ("MCA-pca-all", "CPCCA-pca-all"):
+        # PCA pre-reduction keeping "all" modes, refitted on data with more (and with fewer) features
+        cases.append(dict(model=model, ops=[("fit", "D3"), ("fit", "D1")], keep=True))
+        cases.append(dict(model=model, ops=[("fit", "D1"), ("fit", "D3"), ("transform", "D3")], keep=model.startswith("MCA")))
     for i, c in enumerate(cases):
         c["seed"] = int(seed) * 1000 + i
     if tier == "quick":
